@@ -1044,6 +1044,21 @@ func scannerKeywords(p *Prog) (*scanKeywords, error) {
 			}
 		}
 	}
+	// the pattern reader may also take a compiled expression (package-level, compiled once): it is the
+	// stream method that applies FindStringIndex
+	var extraPatterns []string
+	for _, cs := range p.StdCallees["(*regexp.Regexp).FindStringIndex"] {
+		f := cs.Caller
+		if f.Signature.Recv() == nil || !strings.Contains(f.String(), "expressionStream") {
+			continue
+		}
+		if k.ReadRegex == nil {
+			k.ReadRegex = f
+		}
+		if pats, ok := regexPatternsOf(p, cs.Instr.Common().Args[0], 0); ok {
+			extraPatterns = append(extraPatterns, pats...)
+		}
+	}
 	if k.ReadFn == nil {
 		return nil, fmt.Errorf("unresolved anchor: the stream method that matches literal keywords (wrapper of strings.HasPrefix)")
 	}
@@ -1132,6 +1147,9 @@ func scannerKeywords(p *Prog) (*scanKeywords, error) {
 				if k.ReadRegex != nil && callee == k.ReadRegex {
 					s, ok := constString(c.Call.Args[1])
 					if !ok {
+						if _, okRe := regexPatternsOf(p, c.Call.Args[1], 0); okRe {
+							continue // a compiled expression with known constant patterns (collected above)
+						}
 						return nil, fmt.Errorf("%s: regexp pattern is not a constant", p.pos(c.Pos()))
 					}
 					k.Patterns = append(k.Patterns, s)
@@ -1155,10 +1173,127 @@ func scannerKeywords(p *Prog) (*scanKeywords, error) {
 			}
 		}
 	}
+	for _, s := range extraPatterns {
+		dup := false
+		for _, x := range k.Patterns {
+			if x == s {
+				dup = true
+			}
+		}
+		if dup {
+			continue
+		}
+		k.Patterns = append(k.Patterns, s)
+		if re, err := regexp.Compile(`^(?:` + s + `)`); err == nil {
+			isID := false
+			for _, probe := range []string{"a", "A", "0"} {
+				if loc := re.FindStringIndex(probe); loc != nil && loc[1] > 0 {
+					isID = true
+				}
+			}
+			if isID {
+				if k.IDPattern != "" && k.IDPattern != s {
+					return nil, fmt.Errorf("two different id patterns %q and %q", k.IDPattern, s)
+				}
+				k.IDPattern = s
+			} else {
+				k.WSPattern = s
+			}
+		}
+	}
 	if len(k.Operators) == 0 {
 		return nil, fmt.Errorf("unresolved anchor: scanner operator list")
 	}
 	return k, nil
+}
+
+// regexPatternsOf: the constant patterns a *regexp.Regexp value can have been compiled from: a direct
+// Compile/MustCompile of a constant, a parameter (all reachable call sites), or a package-level variable
+// initialised once with such a compilation.
+func regexPatternsOf(p *Prog, v ssa.Value, d int) ([]string, bool) {
+	if d > 4 {
+		return nil, false
+	}
+	switch t := v.(type) {
+	case *ssa.Extract:
+		return regexPatternsOf(p, t.Tuple, d+1)
+	case *ssa.Call:
+		c := t.Call.StaticCallee()
+		if c == nil || (c.String() != "regexp.Compile" && c.String() != "regexp.MustCompile") {
+			return nil, false
+		}
+		if s, ok := constString(t.Call.Args[0]); ok {
+			return []string{s}, true
+		}
+		if prm, ok := t.Call.Args[0].(*ssa.Parameter); ok {
+			cs, ok := paramConsts(p, prm)
+			if !ok {
+				return nil, false
+			}
+			var out []string
+			for _, k := range cs {
+				if k.Value.Kind() == constant.String {
+					out = append(out, constant.StringVal(k.Value))
+				}
+			}
+			return out, len(out) > 0
+		}
+	case *ssa.Parameter:
+		f := t.Parent()
+		idx := -1
+		for i, fp := range f.Params {
+			if fp == t {
+				idx = i
+			}
+		}
+		var out []string
+		n := 0
+		for _, g := range p.RList {
+			for _, b := range g.Blocks {
+				for _, in := range b.Instrs {
+					ci, ok := in.(ssa.CallInstruction)
+					if !ok || ci.Common().StaticCallee() != f || idx < 0 || idx >= len(ci.Common().Args) {
+						continue
+					}
+					n++
+					ps, ok := regexPatternsOf(p, ci.Common().Args[idx], d+1)
+					if !ok {
+						return nil, false
+					}
+					out = append(out, ps...)
+				}
+			}
+		}
+		return out, n > 0
+	case *ssa.UnOp:
+		g, ok := t.X.(*ssa.Global)
+		if !ok || t.Op != token.MUL {
+			return nil, false
+		}
+		var out []string
+		n := 0
+		for _, fn := range p.AllModuleFuncsOfSSAPkg(g.Pkg) {
+			for _, b := range fn.Blocks {
+				for _, in := range b.Instrs {
+					st, ok := in.(*ssa.Store)
+					if !ok || st.Addr != ssa.Value(g) {
+						continue
+					}
+					n++
+					if fn.Name() != "init" {
+						return nil, false // written outside initialisation
+					}
+					ps, ok := regexPatternsOf(p, st.Val, d+1)
+					if !ok {
+						return nil, false
+					}
+					out = append(out, ps...)
+				}
+			}
+		}
+		return out, n == 1
+	}
+	return nil, false
 }
 
 // ruleIDsScannable (G7 / L5a): every listed id, minus one trailing '+', fully matches the id pattern.
